@@ -2,20 +2,21 @@
 # maintainer helper: confirm a seeded change and see which checks catch it.
 # usage: tools/try_seed.sh <dir with patch.diff and demo.py> [props...]
 D="$1"; shift
-WT=/tmp/wt2/verify
+ROOT=${PV_SEED_ROOT:-/tmp/wt7}
+WT=$ROOT/verify
 [ -d "$WT" ] || git -C /repo worktree add -q "$WT" HEAD
 git -C "$WT" checkout -q --detach $(git -C /repo rev-parse HEAD) && git -C "$WT" checkout -q -- . 
-echo "== demo on clean tree (expect PASS/0)"; (cd "$WT" && PYTHONPATH="$WT" timeout 120 /venv/bin/python -W ignore "$D/demo.py" >/tmp/wt2/demo_clean.txt 2>&1; echo "rc=$?"; tail -2 /tmp/wt2/demo_clean.txt)
+echo "== demo on clean tree (expect PASS/0)"; (cd "$WT" && PYTHONPATH="$WT" timeout 120 /venv/bin/python -W ignore "$D/demo.py" >$ROOT/demo_clean.txt 2>&1; echo "rc=$?"; tail -2 $ROOT/demo_clean.txt)
 git -C "$WT" apply "$D/patch.diff" || { echo "PATCH DOES NOT APPLY"; exit 3; }
 echo "== suite with patch"; (cd "$WT" && PYTHONPATH="$WT" /venv/bin/python -m pytest -q -p no:cacheprovider --timeout=900 test 2>&1 | tail -1)
-echo "== demo with patch (expect FAIL/1)"; (cd "$WT" && PYTHONPATH="$WT" timeout 120 /venv/bin/python -W ignore "$D/demo.py" >/tmp/wt2/demo_patched.txt 2>&1; echo "rc=$?"; tail -3 /tmp/wt2/demo_patched.txt)
+echo "== demo with patch (expect FAIL/1)"; (cd "$WT" && PYTHONPATH="$WT" timeout 120 /venv/bin/python -W ignore "$D/demo.py" >$ROOT/demo_patched.txt 2>&1; echo "rc=$?"; tail -3 $ROOT/demo_patched.txt)
 git -C "$WT" checkout -q -- .
 echo "== checks on patched tree"
 PROPS="$@"; [ -z "$PROPS" ] && PROPS="C01 C02 C03 C04 C05 C06 C07 C08 C09 C10 C11 C12 C13 C14 C15 C16 C17 C19 C20"
-rm -rf /tmp/wt2/scratch && mkdir -p /tmp/wt2/scratch && cp -r /repo/pymbolic /tmp/wt2/scratch/pymbolic && (cd /tmp/wt2/scratch && git apply --unsafe-paths "$D/patch.diff" 2>/dev/null || patch -p1 -s < "$D/patch.diff")
+rm -rf $ROOT/scratch && mkdir -p $ROOT/scratch && cp -r /repo/pymbolic $ROOT/scratch/pymbolic && (cd $ROOT/scratch && git apply --unsafe-paths "$D/patch.diff" 2>/dev/null || patch -p1 -s < "$D/patch.diff")
 for p in $PROPS; do
-  out=$(cd /verif && PV_REPO=/tmp/wt2/scratch ./check $p --no-evidence 2>&1); rc=$?
+  out=$(cd /verif && PV_REPO=$ROOT/scratch ./check $p --no-evidence 2>&1); rc=$?
   if [ $rc -ne 0 ]; then echo "$p rc=$rc"; echo "$out" | grep -A2 "VIOLATION\|ANALYSIS-ERROR" | grep -v "^--" | head -8 | cut -c1-260; fi
 done
-rm -rf /tmp/wt2/scratch
+rm -rf $ROOT/scratch
 echo "== done"
